@@ -105,7 +105,7 @@ def build():
                                              'the technique applies'})
     manifest = {
         'version': 1,
-        'setup_cmd': '/venv/bin/python setup_verif.py',
+        'setup_cmd': '/venv/bin/python setup_verif.py --with-atheris',
         'hooks': {
             'guard': GUARD,
             'enable': 'no hooks are needed: every property is observable through the public API; checks import '
